@@ -292,6 +292,11 @@ pub async fn run(out: &mut Out) {
             ("tls-key-without-pem", base("", direct, &format!("  - name: tls\n    type: http\n    bind: 127.0.0.1:{}\n    tls:\n      cert: {}/server.crt\n      key: {}/empty.crt\n", p(), PKI, PKI), p()), false),
             ("rule-filter-tuple-index", format!("{}  - target: out\n    filter: \"(1,2).5 == 1\"\n", base("", direct, "", p())), false),
             ("rule-filter-min-mod", format!("{}", base("", direct, "", p()).replace("rules:\n", "rules:\n  - target: deny\n    filter: \"(0 - 9223372036854775807 - 1) % (0 - 1) == 0\"\n  - target: deny\n    filter: \"1 / (request.target.port - request.target.port) == 0\"\n")), true),
+            // legal boundary values of numeric options that reach the data path only with the first relayed request
+            ("timeouts-idle-zero", base("timeouts:\n  idle: 0\n", direct, "", p()), true),
+            ("timeouts-both-zero", base("timeouts:\n  idle: 0\n  udp: 0\n", direct, "", p()), true),
+            ("timeouts-idle-one", base("timeouts:\n  idle: 1\n  udp: 1\n", direct, "", p()), true),
+            ("io-buffer-size-one", base("ioParams:\n  bufferSize: 1\n  useSplice: false\n", direct, "", p()), true),
             ("log-format-dynamic-error", base(&format!("accessLog:\n  path: /verif/out/C18/b-{}.log\n  format:\n    script: to_string(100 / (request.target.port - {}))\n", std::process::id(), oport), direct, "", p()), true),
         ];
         for (what, cfg, want_ok) in cases {
